@@ -99,6 +99,8 @@ def args_text(c):
         return f", w = {f0}"
     if a == "two":
         return f", {f0}, {f1}"
+    if a == "named_extra":
+        return f", {alias} = *{f0}, w = {f0}"
     raise ValueError(a)
 
 
@@ -215,7 +217,9 @@ def run(chk, tier, seed, replay):
     # the 192-spec grid (all cases x all specs would be 2.6M calls) and bounds the number of rejected derives compiled
     rot = 8 if tier == "thorough" and not replay else 1
     nspec, subsets = {}, {}
-    rej_sel = vlib.cap_cases([k for k, v in cases.items() if v[1][0] == "error"], seed, 4000 if tier == "quick" else 12000)
+    # (the rare reject families - an index that wraps, an unused second named argument - are always compiled)
+    rej_sel = vlib.cap_cases([k for k, v in cases.items() if v[1][0] == "error"], seed, 4000 if tier == "quick" else 12000,
+                             keep=lambda k: ("18446744073709551616" in k or ", w = " in k) and vlib.seeded_pick(k, seed, 3) == 0)
     for k, (c, doc, impl) in cases.items():
         if doc[0] == "error":
             if k in rej_sel:
